@@ -1,6 +1,7 @@
 import PqlModel.Props.C15
 import PqlModel.Props.C15Parse
 import PqlModel.Props.C16Semantics
+import PqlModel.Props.C15SplitIR
 #print axioms Pql.C15.C15_count
 #print axioms Pql.C15.C15_join
 #print axioms Pql.C15.C15_scan_local
@@ -21,3 +22,6 @@ import PqlModel.Props.C16Semantics
 #print axioms Pql.Piecewise.C15_notFound_discards_earlier_errors
 #print axioms Pql.Piecewise.pStatement_sh
 #print axioms Pql.Piecewise.pStatements_sh
+#print axioms Pql.LexIR.splitStatements_ir
+#print axioms Pql.LexIR.C15_split_ir
+#print axioms Pql.LexIR.C15_split_ir_needs_order
